@@ -45,7 +45,7 @@ BUDGETS = {'C09': (55, 1200, 40)}
 LEVELS = {'C09': 'exploration'}
 ALLOWED = (ServerError, ProtocolError, SSLVerificationError, NetworkError)
 PROBES = {'C09': ['layer.http', 'layer.web', 'layer.robots', 'layer.ftp', 'layer.crawl', 'long_line', 'raw_random', 'truncated', 'odd_location',
-                  'odd_cookie', 'bad_compression', 'ftp_reply_mutated', 'ftp_listing_mutated', 'hostile_html', 'hostile_css', 'hostile_js',
+                  'odd_cookie', 'cookie_flood', 'bad_compression', 'ftp_reply_mutated', 'ftp_listing_mutated', 'hostile_html', 'hostile_css', 'hostile_js',
                   'hostile_sitemap', 'hostile_robots', 'real_file_writer', 'per_url_error_seen', 'healthy_fetched_after_hostile', 'reset', 'stall']}
 INFO = {'C09': {
     'rule': 'workload = layer (http / web / robots / ftp / crawl) x valid traffic with 1..2 grammar-aware mutations or raw random bytes or a '
@@ -181,6 +181,23 @@ def layer_web(tape, r, robots=False):
     hh.script = []
     descs = []
     n = tape.between(1, 4, 'nhops')
+    flood = not robots and tape.chance(1, 10, 'cookie_flood')
+    if flood:
+        # state that builds up over several responses: more cookies than the per-domain limits, then cookies with paths /
+        # domains / names not seen before (limits: 50 per domain in DeFactoCookiePolicy)
+        r.probes['cookie_flood'] += 1
+        r.probes['odd_cookie'] += 1
+        per = tape.choice((11, 17, 26), 'flood.per')
+        n = 0
+        for i in range(5):
+            cookies = b''.join(b'Set-Cookie: c%d_%d=v%d; Path=%s\r\n' % (i, j, j, tape.choice((b'/', b'/', b'/a/'), 'flood.path')) for j in range(per))
+            wire = b'HTTP/1.1 302 R\r\nLocation: /flood%d\r\n' % i + cookies + b'Content-Length: 0\r\n\r\n'
+            hh.script.append((wire, 'open'))
+            descs.append(['cookie-flood:%d' % per])
+        late = tape.choice((b'Set-Cookie: late=1; Path=/area/\r\n', b'Set-Cookie: c0_0=again; Path=/\r\n', b'Set-Cookie: late=1; Domain=.hostile.test; Path=/zz\r\n',
+                            b'Set-Cookie: late=1; Path=/area/\r\nSet-Cookie: late2=2; Path=/area/sub\r\n', b'Set-Cookie: ' + b'n' * 5000 + b'=1\r\n'), 'flood.late')
+        hh.script.append((b'HTTP/1.1 200 OK\r\n' + late + b'Content-Length: 2\r\n\r\nok', 'open'))
+        descs.append(['cookie-after-flood:%r' % late[:40]])
     for i in range(n):
         base = httpgen.gen_response(tape, method='GET', allow_truncate=False, allow_surplus=False, big_ok=False)
         if i < n - 1 and tape.chance(1, 2, 'redirect'):
